@@ -9,8 +9,8 @@ import tlcgraph, vbuild  # noqa: E402
 REPO = os.environ.get("VERIF_REPO", "/repo")
 SPEC = os.path.join(VERIF, "spec")
 BUILD = os.path.join(VERIF, "build")
-EVID = os.path.join(VERIF, "evidence")
-REPLAYS = os.path.join(VERIF, "replays")
+EVID = os.environ.get("VERIF_EVID", os.path.join(VERIF, "evidence"))
+REPLAYS = os.environ.get("VERIF_REPLAYS", os.path.join(VERIF, "replays"))
 KNOWN = os.path.join(VERIF, "KNOWN_FINDINGS")
 WORK = os.path.join(BUILD, "work", str(os.getpid()))      # per-process scratch: MC modules, schedules, TLC meta-directories
 import atexit
